@@ -227,7 +227,7 @@ def run_e2e(ctx, n):
             smp = S.is_sample_list(t)
             t_skip = truth(t, smp)
             method = "variational_gamma"
-            for allow in (False, True):
+            for allow in (False, True, None):     # None = the documented default (reject)
                 got = date_reject(t, method, allow)
                 ctx.case({"e2e": kind, "method": method, "allow": allow, "summary": S.summary(t)},
                          kind="e2e:" + method)
@@ -240,7 +240,7 @@ def run_e2e(ctx, n):
                                     "date(method=%s, allow_unary=%s) unary rejection=%s, trees say %s"
                                     % (method, allow, got, want), {"tables": S.describe(t), "kind": kind})
         method = ctx.rng.choice(["inside_outside", "maximization"])
-        for allow in (False, True):
+        for allow in (False, True, None):
             got = date_reject(ts, method, allow)
             ctx.case({"e2e": "e2e", "method": method, "allow": allow, "summary": S.summary(ts)},
                      kind="e2e:" + method)
@@ -311,7 +311,7 @@ def run(ctx, model_ok=True):
             ctx.corr("reference semantics (brute force in Coq) vs Tree API",
                      r_none == t_none and r_skip == t_skip and m_d0 == t_none and m_d1 is False, "", rp)
             ctx.tally("coq_bruteforce_reference")
-    run_e2e(ctx, ctx.n(3, 40))
+    run_e2e(ctx, ctx.n(5, 40))
 
 
 def search(ctx):
